@@ -17,7 +17,7 @@ PROPS = {}
 # properties not claimed (yet or ever), with the one-line reason that goes into MANIFEST.not_applicable
 _WIP = "check not built yet in this round (planned, see DESIGN.md section 5)"
 NOT_APPLICABLE = {
-    "C01": _WIP, "C02": _WIP, "C04": _WIP, "C06": _WIP, "C09": _WIP,
+    "C01": _WIP, "C02": _WIP, "C04": _WIP, "C06": _WIP,
     "C11": _WIP, "C12": _WIP, "C15": _WIP,
     "C03": "accept/reject and AST construction live in a proc-macro-generated PEG parser over `str`; Verus cannot reason about str/macro output and Kani cannot carry a symbolic text past the mandatory header, so no contract within reach states 'accepts exactly this language'",
     "C16": "composes core::fmt/pad string formatting with the pest parser over all ASTs; both halves are str-level and outside what Verus accepts or Kani can bound meaningfully",
@@ -124,5 +124,31 @@ PROPS["C14"] = {
     "samples": [{"obligation": "C14.B.edge.comp1-by-dac-write", "text": "DAISR' == DAISR | (source==COMP1 & transition matches FALLING ? SOURCE|INT_FF : 0)", "domain": "symbolic board x 256 bytes"},
                 {"obligation": "C14.B.clamp.temperature", "text": "forall v: f32 (all bit patterns). temp' == clamp(v), NaN -> 0", "domain": "2^32 patterns, symbolic"}],
     "trusted": ["CBMC's IEEE-754 semantics for f32 compare, divide, int->float and float->int casts"],
+    "assumptions": [],
+}
+
+
+def _pregen_c09(stage, native_run):
+    import os, gen_c09
+    out = native_run(stage, "verif_replay_c09", "gen_c09_dump")
+    lines = out.splitlines()
+    fetch = {int(l.split()[1]) for l in lines if l.startswith("F ")}
+    D, U = gen_c09.build(lines)
+    text, info = gen_c09.emit(D, U, fetch)
+    open(os.path.join(stage.gen, "c09_cert.rs"), "w").write(text)
+    return info
+
+
+PROPS["C09"] = {
+    "inject": ST_ALL + [("emulator-2a-lib/src/machine/raw/mod.rs", "c09_seq.rs", "verif_c09")],
+    "pregen": _pregen_c09,
+    "functions": ["Signals::next_microprogram_address (+ am1..am4, address_logic_1..3)", "MachineAfterRegWrite::update_instruction_from_bus (IR load / reset)",
+                  "MachineAfterInterruptFetching::update_word", "MicroprogramRam::CONTENT (the real table)", "RawMachine::trigger_clock_edge (MUL/DIV loop variants)"],
+    "timeout": 900,
+    "technique": "ghost certificate (reachable control states, rank, stuck set) generated by walking the real sequencer natively and CHECKED by one symbolic Kani query over addr x IR x flags x ALU conditions x interrupt x fetched byte; loop variants for MUL/DIV on the real clock edge",
+    "level_text": "Proof: the certificate is an inductive invariant of the real next-address/IR-load code (closure), every certified successor is a programmed word in the routine of the IR, the rank to the next fetch strictly decreases outside the MUL/DIV routines, each MUL/DIV pass strictly decreases its variant for all data, and the stuck set of the 20 undefined first bytes is closed and fetch-free.",
+    "level_note": "Trusted: Kani/CBMC, rustc. The certificate generator (native walk + Python) is untrusted: a wrong certificate fails closure. The defined second-byte set (MOV/CMP/BITT/LDSP/LDFR/BITS/BITC) is transcribed from the statement and the encoder. 'Bounded' = rank <= 255 words plus <= 8 (MUL) / <= 256 (DIV) passes.",
+    "samples": [{"obligation": "C09.N.closure", "text": "cert(addr, IR) ==> cert(control_step(addr, IR, flags, co, zo, no, iff, byte))", "domain": "512 x 256 x 2^4 x 2^3 x 2 x 256, symbolic"}],
+    "trusted": [],
     "assumptions": [],
 }
